@@ -14,6 +14,7 @@ pub mod props;
 pub mod refmodel;
 pub mod rig;
 pub mod scene;
+pub mod sched;
 pub mod util;
 pub mod world;
 
